@@ -13,20 +13,25 @@
     edits is such a script, so the theorems quantify over all of them.
 
     Partial (named so): the MySQL / PostgreSQL instances (DiffDialects.v) cover the
-    attributes of the edit catalogue only; the index script requires that a dropped
-    index with a database-generated name has no similar unnamed index on the other
-    side (the positive similarUnnamedIndex match is tied, not characterised);
-    RealmDiff, views, triggers are outside the model.
+    attributes of the edit catalogue only; the index *script* theorems (2b, 2f, 3a) require
+    that a dropped index with a database-generated name has no similar unnamed index on
+    the other side -- the closed form 5a and the composition 9 do not.
+    Since round 5 RealmDiff and schema attributes (8), table attributes and check flags of
+    MySQL / PostgreSQL (10, 11) and views (12) are inside the model, over wrapper records
+    next to Diff/Schema.v, PostgreSQL enum objects too (13); triggers, functions stay outside.
 
     FULL STATEMENT aimed at (C02_exact): for every well-formed s and every independent
     finite set es of elementary edits, diff s (apply es s) = expected es up to order
     within a table.  Proved below piecewise: per keyed list (2a-2e), composed per table
     (2f, 3a) and per schema (2g), with the ChangeKind bits of ColumnChange per dialect
-    (3b, 4c, 4f).  What is missing for one closed C02_exact: the composition of 2g
-    with 3a over all tables at once, and the scripts whose dropped generated-name index
-    is matched with an unnamed one. *)
+    (3b, 4c, 4f), and -- round 5 -- composed over all tables of a schema for SQLite
+    (9: C02_exact_sqlite_partial, index part in the closed form of 5a, so the match of a
+    generated name with an unnamed desired index is included) and over all schemas of a
+    realm (8a-8g: RealmDiff, schema attributes).  What is still missing for one closed
+    C02_exact: pairs in which SQLite's Normalize rewrites something (autoindex names,
+    re-symbolled foreign keys), and table attributes of MySQL / PostgreSQL. *)
 From Coq Require Import List NArith Bool Arith Permutation.
-From Atlas Require Import Base.Bytes Diff.Schema Diff.DiffModel Diff.DiffSqlite Diff.DiffDialects Diff.DiffProofs Diff.DiffSqliteProofs Diff.DiffDialectsProofs Diff.DiffSqliteCopy Diff.DiffMysqlVariants Diff.DiffMysqlVariantsProofs Diff.DiffUnnamedProofs.
+From Atlas Require Import Base.Bytes Diff.Schema Diff.DiffModel Diff.DiffSqlite Diff.DiffDialects Diff.DiffProofs Diff.DiffSqliteProofs Diff.DiffDialectsProofs Diff.DiffSqliteCopy Diff.DiffMysqlVariants Diff.DiffMysqlVariantsProofs Diff.DiffUnnamedProofs Diff.DiffSqliteNumFk Diff.DiffRealm Diff.DiffRealmProofs Diff.DiffSqliteExact Diff.DiffTableAttrs Diff.DiffTableAttrsProofs Diff.DiffCheckFlags Diff.DiffCheckFlagsProofs Diff.DiffViews Diff.DiffViewsProofs Diff.DiffObjects Diff.DiffObjectsProofs.
 Import ListNotations.
 
 (** 1a. Generic: for every driver whose callbacks report nothing on identical
@@ -594,6 +599,372 @@ Theorem C02_mysql_fill_idempotent :
   forall v p, fill_pair v (fill_pair v p) = fill_pair v p.
 Proof. exact fill_pair_idempotent. Qed.
 
+(** * Round 5 *)
+
+(** 7a. SQLite, foreign keys under numeric symbols ("0", "1", ...: the ordinals the inspector
+    reports for unnamed constraints).  Normalize never pairs such a key of the current side by
+    its symbol -- only by shape (sameFK): its loop is the shape-only loop; and a numeric key
+    without a same-shape partner keeps its symbol and claims no desired key, even when the
+    desired side has a key under the same ordinal. *)
+Theorem C02_sqlite_numeric_fk_symbols :
+  forall n1 n2 fk1 tofks used, is_uint (f_symbol fk1) = true ->
+  normalize_fk_inner n1 n2 fk1 tofks used = normalize_fk_inner_shape n1 n2 fk1 tofks used /\
+  ((forall fk2, In fk2 tofks -> same_fk n1 n2 fk1 fk2 = false) ->
+   normalize_fk_inner n1 n2 fk1 tofks used = (fk1, used)).
+Proof.
+  intros n1 n2 fk1 tofks used U. split.
+  - exact (normalize_fk_inner_numeric n1 n2 fk1 tofks used U).
+  - exact (normalize_fk_inner_numeric_unpaired n1 n2 fk1 tofks used U).
+Qed.
+
+(** 7b. "one DropForeignKey per dropped key and nothing else" is FALSE for SQLite when both
+    sides are inspected states (numeric symbols) and the dropped key is not the last one: the
+    unpaired key keeps its ordinal (7a), which on the desired side -- numbered without it --
+    belongs to another key; tableDiff looks it up by symbol, finds that other key and reports
+    ModifyForeignKey (columns, referenced table) instead of DropForeignKey.  Witness: t with
+    keys 0: x->a, 1: y->b, 2: z->c; desired 0: x->a, 1: z->c (y->b dropped), and the same with
+    the first key dropped.  Reproduced on the Go code: harness family numfk-shift (27 cases),
+    known finding C02-sqlite-dropped-numeric-fk-ordinal-reused.  Dropping the last key, adding
+    a key anywhere and reordering are answered correctly (Example C02_ex_numfk_shift). *)
+Theorem C02_sqlite_numeric_fk_drop_refuted :
+  exists from to1 to2,
+    forallb (fun f => is_uint (f_symbol f)) (flat_map t_fks (s_tables from ++ s_tables to1 ++ s_tables to2)) = true /\
+    SchemaDiff sqlite_driver no_skip from to1 <> Some [ModifyTable [116]%N [DropForeignKey [49]%N]] /\
+    SchemaDiff sqlite_driver no_skip from to1 =
+      Some [ModifyTable [116]%N [ModifyForeignKey [49]%N (N.lor (N.lor ChangeRefTable ChangeRefColumn) ChangeColumn)]] /\
+    SchemaDiff sqlite_driver no_skip from to2 <> Some [ModifyTable [116]%N [DropForeignKey [48]%N]].
+Proof.
+  exists n_from, n_to_mid, n_to_first. split; [exact n_all_numeric|]. split; [|split].
+  - rewrite n_diff_mid. discriminate.
+  - exact n_diff_mid.
+  - rewrite n_diff_first. discriminate.
+Qed.
+
+(** 8a. RealmDiff is exact on every script of schemas (keyed by name; the desired realm may
+    list them in any order): per dropped schema one DropSchema, per kept schema exactly
+    schemaDiff's list (8b), per added schema AddSchema followed by one AddTable per table of it
+    -- each through the skip filter on its own --, nothing else.  For every driver [D], every
+    SchemaAttrDiff [A], every skip filter. *)
+Theorem C02_exact_realm :
+  forall (D : DiffDriver) (A : realm -> schema_x -> schema_x -> list sattr) (rskip : rtag -> bool)
+         from to ps adds,
+  r_schemas from = map fst ps -> script_ok sx_name ps adds ->
+  Permutation (r_schemas to) (kept ps ++ adds) ->
+  (forall s s', In (s, Some s') ps -> schema_diff_x D A rskip from s s' <> None) ->
+  exists adds', Permutation adds adds' /\
+    RealmDiff D A rskip from to =
+    Some (rs_expected D A rskip from ps ++ flat_map (add_schema_changes rskip) adds').
+Proof. exact realm_diff_exact. Qed.
+
+(** 8b. schemaDiff with schema attributes on every script of tables: one ModifySchema carrying
+    exactly SchemaAttrDiff's list iff that list is not empty, then 2g's table changes. *)
+Theorem C02_exact_schema_attrs :
+  forall (D : DiffDriver) (A : realm -> schema_x -> schema_x -> list sattr) (rskip : rtag -> bool)
+         r from to ps adds,
+  sx_name from = sx_name to -> s_tables (sx_schema from) = map fst ps -> script_ok t_name ps adds ->
+  Permutation (s_tables (sx_schema to)) (kept ps ++ adds) ->
+  (forall t t', In (t, Some t') ps -> table_diff D (skip_t rskip) t t' <> None) ->
+  exists adds', Permutation adds adds' /\
+    schema_diff_x D A rskip r from to =
+    Some (modify_schema_expected A rskip r from to
+          ++ map (InSchema (sx_name to))
+               (tbl_expected D (skip_t rskip) ps
+                ++ add_or_skip_s (skip_t rskip) (map (fun t => AddTable (t_name t)) adds'))).
+Proof. exact schema_diff_x_exact. Qed.
+
+(** 8c. An added schema: AddSchema (unless skipped) followed by its AddTables (unless skipped),
+    the two kinds filtered independently. *)
+Theorem C02_realm_add_schema :
+  forall (rskip : rtag -> bool) s,
+  let tables := map (InSchema (sx_name s))
+                    (add_or_skip_s (skip_t rskip) (map (fun t => AddTable (t_name t)) (s_tables (sx_schema s)))) in
+  (rskip RtAddSchema = false -> add_schema_changes rskip s = AddSchema (sx_name s) :: tables) /\
+  (rskip RtAddSchema = true -> add_schema_changes rskip s = tables).
+Proof.
+  intros rskip s. split.
+  - exact (add_schema_changes_kept rskip s).
+  - exact (add_schema_changes_skipped rskip s).
+Qed.
+
+(** 8d. The realm with itself, with a copy, with the schemas (and everything inside them) in
+    any other order: empty, for every driver satisfying the laws whose SchemaAttrDiff reports
+    nothing on equal attributes, for every skip filter. *)
+Theorem C02_perm_empty_realm :
+  forall (D : DiffDriver) (A : realm -> schema_x -> schema_x -> list sattr) (rskip : rtag -> bool)
+         (dwf : table -> Prop) r r',
+  refl_laws D -> sim_laws D dwf -> attr_refl_law A ->
+  wf_realm dwf r -> realm_perm r r' -> RealmDiff D A rskip r r' = Some [].
+Proof. exact (fun D A rskip dwf r r' => realm_diff_perm D A rskip dwf r r'). Qed.
+
+Theorem C02_self_empty_realm :
+  forall (D : DiffDriver) (A : realm -> schema_x -> schema_x -> list sattr) (rskip : rtag -> bool)
+         (dwf : table -> Prop) r,
+  refl_laws D -> sim_laws D dwf -> attr_refl_law A -> wf_realm dwf r -> RealmDiff D A rskip r r = Some [].
+Proof. exact (fun D A rskip dwf r => realm_diff_self D A rskip dwf r). Qed.
+
+(** 8e. ... which holds for the three community drivers (every MySQL server variant, every
+    PostgreSQL schema scope). *)
+Theorem C02_realm_laws :
+  attr_refl_law sqlite_schema_attr_diff /\ attr_refl_law mysql_schema_attr_diff /\
+  forall ns, attr_refl_law (pg_schema_attr_diff ns).
+Proof. exact (conj sqlite_attr_refl (conj mysql_attr_refl pg_attr_refl)). Qed.
+
+Theorem C02_realm_perm_empty_dialects :
+  (forall rskip r r', wf_realm sqlite_dwf r -> realm_perm r r' -> sqlite_realm_diff rskip r r' = Some []) /\
+  (forall v rskip r r', wf_realm (mysql_dwf_v v) r -> realm_perm r r' -> mysql_realm_diff_v v rskip r r' = Some []) /\
+  (forall ns rskip r r', wf_realm pg_dwf r -> realm_perm r r' -> pg_realm_diff_ns ns rskip r r' = Some []).
+Proof.
+  split; [|split].
+  - intros rskip r r'. exact (realm_diff_perm sqlite_driver _ rskip sqlite_dwf r r' sqlite_refl_laws sqlite_sim_laws sqlite_attr_refl).
+  - intros v rskip r r'. exact (realm_diff_perm (mysql_driver_v v) _ rskip (mysql_dwf_v v) r r' (mysql_refl_laws_v v) (mysql_sim_laws_v v) mysql_attr_refl).
+  - intros ns rskip r r'. exact (realm_diff_perm (pg_driver_ns ns) _ rskip pg_dwf r r' (pg_refl_laws_ns ns) (pg_sim_laws_ns ns) (pg_attr_refl ns)).
+Qed.
+
+(** 8f. MySQL SchemaAttrDiff, per attribute (charset, collation -- the same switch): attribute
+    added -> AddAttr; both present -> ModifyAttr iff the values differ; attribute removed from
+    the desired schema -> ModifyAttr to the realm's value iff the realm has one and it differs
+    (a charset cannot be dropped), else nothing; absent on both sides -> nothing. *)
+Theorem C02_mysql_schema_attr_exact :
+  forall a from top to,
+  match from, to with
+  | None, None => mysql_attr_change a from top to = []
+  | None, Some t => mysql_attr_change a from top to = [SAddAttr a t]
+  | Some f, Some t => (f = t -> mysql_attr_change a from top to = []) /\
+                      (f <> t -> mysql_attr_change a from top to = [SModifyAttr a f t])
+  | Some f, None =>
+      match top with
+      | None => mysql_attr_change a from top to = []
+      | Some p => (f = p -> mysql_attr_change a from top to = []) /\
+                  (f <> p -> mysql_attr_change a from top to = [SModifyAttr a f p])
+      end
+  end.
+Proof. exact mysql_attr_change_exact. Qed.
+
+(** 8g. sqlx.CommentDiff (PostgreSQL schema comments; the same function serves table comments):
+    a comment added -> AddAttr unless it is empty; removed -> ModifyAttr to the empty comment;
+    both present -> ModifyAttr iff the unquoted texts differ. *)
+Theorem C02_comment_diff_exact :
+  forall from to,
+  match from, to with
+  | None, None => comment_diff from to = []
+  | None, Some t => (t = [] -> comment_diff from to = []) /\
+                    (t <> [] -> comment_diff from to = [SAddAttr ATTR_COMMENT t])
+  | Some f, None => comment_diff from to = [SModifyAttr ATTR_COMMENT f []]
+  | Some f, Some t =>
+      forall v1 v2, unquote f = Some v1 -> unquote t = Some v2 ->
+      (v1 = v2 -> comment_diff from to = []) /\
+      (v1 <> v2 -> comment_diff from to = [SModifyAttr ATTR_COMMENT f t])
+  end.
+Proof. exact comment_diff_exact. Qed.
+
+(** 9. SQLite, the whole SchemaDiff in one statement (the composition of 2g with 3a over all
+    tables at once, asked for since round 1): for a script of tables and, per kept table, the
+    scripts of its columns, foreign keys and checks ([table_script], [ts_ok]), SchemaDiff returns
+    exactly one DropTable per dropped table, one ModifyTable per kept table whose expected list
+    [sqlite_table_expected] is not empty, carrying exactly that list -- WITHOUT ROWID / STRICT
+    flags, checks, columns, primary key, indexes, foreign keys -- and one AddTable per added
+    table; every kind through the skip filter; nothing else.  The index part is the closed form of
+    5a, valid for all pairs of index lists, so the positive similarUnnamedIndex /
+    FindGeneratedIndex match (a generated name paired with an unnamed desired index: neither
+    dropped nor added) is included -- the side condition of 2b / 2f / 3a is gone.
+    Still partial: [ts_ok] assumes that Normalize has nothing to rewrite in the pair
+    ([fk_stable]: no foreign key is re-symbolled -- excludes the numeric symbols of 7b;
+    [idx_norm_stable]: no UNIQUE autoindex to rename -- those pairs are covered for the copy
+    case by C02_sqlite_copy_empty only), and columns are typed. *)
+Theorem C02_exact_sqlite_partial :
+  forall skip from to ps adds scripts,
+  s_name from = s_name to -> s_tables from = map fst ps -> script_ok t_name ps adds ->
+  Permutation (s_tables to) (kept ps ++ adds) ->
+  Forall2 entry_ok ps scripts ->
+  exists adds' scripts', Permutation adds adds' /\ Forall2 ts_perm scripts scripts' /\
+    SchemaDiff sqlite_driver skip from to =
+    Some (sqlite_schema_expected skip ps scripts' ++ add_or_skip_s skip (map (fun t => AddTable (t_name t)) adds')).
+Proof. exact sqlite_schema_diff_closed. Qed.
+
+(** 10. Table attributes of MySQL / PostgreSQL (DiffTableAttrs.v: the wrapper [table_x] around
+    [table]; [schema_tx] with the schema's charset / collation as the inherited values).
+
+    10a. tableDiff with attributes = TableAttrDiff's attribute changes (never filtered: they are
+    appended, not passed through AddOrSkip) in front of 2f's list; an error of either part is an
+    error of the whole. *)
+Theorem C02_exact_table_attrs :
+  forall (D : DiffDriver) TA (skip : tag -> bool) pcs pco from to a r,
+  TA pcs pco from to = Some a -> table_diff D skip (tx_table from) (tx_table to) = Some r ->
+  table_diff_x D TA skip pcs pco from to = Some (a ++ r).
+Proof. exact table_diff_x_exact. Qed.
+
+(** 10b. SchemaDiff over tables with attributes, on every script of tables (as 2g). *)
+Theorem C02_exact_schema_tx :
+  forall (D : DiffDriver) TA (skip : tag -> bool) from to ps adds,
+  stx_name from = stx_name to -> stx_tables from = map fst ps -> script_ok tx_name ps adds ->
+  Permutation (stx_tables to) (kept ps ++ adds) ->
+  (forall t t', In (t, Some t') ps -> table_diff_x D TA skip (stx_charset from) (stx_collate from) t t' <> None) ->
+  exists adds', Permutation adds adds' /\
+    SchemaDiffX D TA skip from to =
+    Some (tbl_expected_x D TA skip (stx_charset from) (stx_collate from) ps
+          ++ add_or_skip_s skip (map (fun t => AddTable (tx_name t)) adds')).
+Proof. exact schema_diff_tx_exact. Qed.
+
+(** 10c. MySQL TableAttrDiff (attribute part) = six independent parts in the order of the code:
+    AUTO_INCREMENT, comment (8g), charset and collation (8f, inherited value = the schema's),
+    engine, system versioning. *)
+Theorem C02_mysql_table_attrs :
+  forall pcs pco from to,
+  mysql_table_attrs_x pcs pco from to =
+  Some (mysql_autoinc_change (tx_autoinc from) (tx_autoinc to)
+        ++ map sattr_change (comment_diff (tx_comment from) (tx_comment to))
+        ++ map sattr_change (mysql_attr_change ATTR_CHARSET (tx_charset from) pcs (tx_charset to))
+        ++ map sattr_change (mysql_attr_change ATTR_COLLATE (tx_collate from) pco (tx_collate to))
+        ++ mysql_engine_change (tx_engine from) (tx_engine to)
+        ++ mysql_sysver_change (tx_sysver from) (tx_sysver to)).
+Proof. exact mysql_table_attrs_parts. Qed.
+
+(** 10d. AUTO_INCREMENT is reported exactly when the desired table has a value > 1 that is above
+    the current one (absent = 0): it only seeds the counter. *)
+Theorem C02_mysql_autoinc_exact :
+  forall from to,
+  mysql_autoinc_change from to =
+  match to with
+  | Some t => if N.ltb 1 t && N.ltb (match from with Some f => f | None => 0%N end) t
+              then [ModifyAttr ATTR_AUTOINC] else []
+  | None => []
+  end.
+Proof. exact mysql_autoinc_exact. Qed.
+
+(** 10e. ENGINE: both present -> ModifyAttr iff the names differ ignoring case; removed from the
+    desired table -> ModifyAttr (to InnoDB) iff the current engine is neither flagged as the
+    server default nor InnoDB; added to a table that had none -> ModifyAttr unless flagged as
+    the default (also for InnoDB: the code compares the absent current name with "innodb"). *)
+Theorem C02_mysql_engine_exact :
+  forall from to,
+  match from, to with
+  | Some (fv, fd), Some (tv, td) =>
+      (to_lower fv = to_lower tv -> mysql_engine_change from to = []) /\
+      (to_lower fv <> to_lower tv -> mysql_engine_change from to = [ModifyAttr ATTR_ENGINE])
+  | Some (fv, fd), None =>
+      (fd = true \/ to_lower fv = INNODB_LOWER -> mysql_engine_change from to = []) /\
+      (fd = false /\ to_lower fv <> INNODB_LOWER -> mysql_engine_change from to = [ModifyAttr ATTR_ENGINE])
+  | None, Some (tv, td) =>
+      mysql_engine_change from to = if td then [] else [ModifyAttr ATTR_ENGINE]
+  | None, None => mysql_engine_change from to = []
+  end.
+Proof. exact mysql_engine_exact. Qed.
+
+(** 10f. PostgreSQL: a partition key that differs is an error of the diff (no change expresses
+    it); equal keys and equal comments report nothing; and for both dialects equal attributes
+    report nothing whatever the schema's charset / collation. *)
+Theorem C02_postgres_partition_error :
+  forall pcs pco from to, tx_partition from <> tx_partition to -> pg_table_attrs_x pcs pco from to = None.
+Proof. exact pg_partition_error. Qed.
+
+Theorem C02_table_attr_laws : ta_refl_law mysql_table_attrs_x /\ ta_refl_law pg_table_attrs_x.
+Proof. exact (conj mysql_ta_refl pg_ta_refl). Qed.
+
+(** 10g. A schema (tables with attributes) diffed with a copy: empty, for every driver with the
+    laws and every TableAttrDiff silent on equal attributes -- MySQL of every server variant,
+    PostgreSQL of every scope. *)
+Theorem C02_self_empty_tx :
+  forall (D : DiffDriver) TA (skip : tag -> bool) (dwf : table -> Prop) s,
+  refl_laws D -> sim_laws D dwf -> ta_refl_law TA -> wf_schema_tx dwf s ->
+  SchemaDiffX D TA skip s s = Some [].
+Proof. exact (fun D TA skip dwf s => schema_diff_tx_self D TA skip dwf s). Qed.
+
+Theorem C02_self_empty_tx_dialects :
+  (forall v skip s, wf_schema_tx (mysql_dwf_v v) s -> mysql_schema_diff_tx v skip s s = Some []) /\
+  (forall ns skip s, wf_schema_tx pg_dwf s -> pg_schema_diff_tx ns skip s s = Some []).
+Proof.
+  split.
+  - intros v skip s. exact (schema_diff_tx_self (mysql_driver_v v) _ skip (mysql_dwf_v v) s (mysql_refl_laws_v v) (mysql_sim_laws_v v) mysql_ta_refl).
+  - intros ns skip s. exact (schema_diff_tx_self (pg_driver_ns ns) _ skip pg_dwf s (pg_refl_laws_ns ns) (pg_sim_laws_ns ns) pg_ta_refl).
+Qed.
+
+(** 11. CHECK constraints with their dialect flag (MySQL [NOT] ENFORCED, PostgreSQL NO INHERIT;
+    DiffCheckFlags.v).  11a. ChecksDiff over flagged checks is exact on every script (as 2d, the
+    compare function now also requires equal flags). *)
+Theorem C02_exact_checks_flags :
+  forall fromC toC ps adds,
+  fromC = map fst ps -> Permutation toC (kept ps ++ adds) ->
+  (forall c o, In (c, o) ps -> forall c2, In c2 toC -> check_compare_to_x c c2 = true -> o = Some c2) ->
+  (forall c c2, In (c, Some c2) ps -> check_compare_to_x c c2 = true) ->
+  (forall c2, In c2 (kept ps) -> existsb (check_compare_to_x c2) (map fst ps) = true) ->
+  (forall a, In a adds -> existsb (check_compare_to_x a) (map fst ps) = false) ->
+  exists adds', Permutation adds adds' /\
+    checks_diff_x fromC toC =
+    chk_expected_x ps ++ map (fun c => AddCheck (kx_name c) (kx_expr c)) adds'.
+Proof. exact checks_diff_x_exact. Qed.
+
+(** 11b. The flag alone: flipping it on a named check is exactly one ModifyCheck (same name, same
+    expression); on an unnamed check (matched by expression *and* flag) it is a DropCheck and an
+    AddCheck; a list of named checks with distinct names diffed with itself gives nothing. *)
+Theorem C02_check_flag_alone :
+  (forall c, kx_name c <> [] ->
+     checks_diff_x [c] [mkCheckX (kx_name c) (kx_expr c) (negb (kx_flag c))] =
+     [ModifyCheck (kx_name c) (kx_expr c) (kx_name c) (kx_expr c)]) /\
+  (forall c, kx_name c = [] ->
+     checks_diff_x [c] [mkCheckX (kx_name c) (kx_expr c) (negb (kx_flag c))] =
+     [DropCheck [] (kx_expr c); AddCheck [] (kx_expr c)]) /\
+  (forall l, NoDup (map kx_name l) -> (forall c, In c l -> kx_name c <> []) -> checks_diff_x l l = []).
+Proof. exact (conj checks_diff_x_flag_named (conj checks_diff_x_flag_unnamed checks_diff_x_same)). Qed.
+
+(** 11c. tableDiff with attributes and flagged checks = attribute changes ++ check changes ++ the
+    rest (2f); on a MySQL server without CHECK support a desired table with a check is an error. *)
+Theorem C02_exact_table_checks :
+  (forall (D : DiffDriver) TA KD (skip : tag -> bool) pcs pco from to a k r,
+     TA pcs pco (xk_table from) (xk_table to) = Some a -> KD from to = Some k ->
+     table_diff D skip (tx_table (xk_table from)) (tx_table (xk_table to)) = Some r ->
+     table_diff_xk D TA KD skip pcs pco from to = Some (a ++ k ++ r)) /\
+  (forall v from to, mv_check v = false -> xk_checks to <> [] -> mysql_checks_x v from to = None).
+Proof. exact (conj table_diff_xk_exact mysql_checks_x_no_support). Qed.
+
+(** 12. Views (DiffViews.v).  12a. The view loops of schemaDiff are exact on every script of
+    views keyed by kind + name (a view and a materialized view of one name are different
+    objects): one DropView per dropped view, viewDiff's answer per kept view, one AddView per
+    added view, each through the skip filter, in any order of the desired list. *)
+Theorem C02_exact_views :
+  forall (D : DiffDriver) (vskip : vtag -> bool) from to ps adds,
+  from = map fst ps -> script_ok vkey ps adds -> Permutation to (kept ps ++ adds) ->
+  exists adds', Permutation adds adds' /\
+    views_diff D vskip from to =
+    vw_expected D vskip ps ++ flat_map (fun v => add_or_skip_v vskip [AddView (v_name v) (v_mat v)]) adds'.
+Proof. exact views_diff_exact. Qed.
+
+(** 12b. Views diffed with themselves (distinct kind + name, distinct column and index names,
+    index parts well formed): nothing, for every driver with the reflexivity laws. *)
+Theorem C02_views_self_empty :
+  forall (D : DiffDriver) (vskip : vtag -> bool) l,
+  refl_laws D -> NoDup (map vkey l) -> (forall v, In v l -> wf_view v) -> views_diff D vskip l l = [].
+Proof. exact views_diff_self. Qed.
+
+(** 12c. BodyDefChanged: two definitions are the same exactly when they are equal, or equal after
+    trimming blanks / line ends / ';' at both ends, or equal after every line was trimmed and the
+    non-empty lines were joined by single blanks. *)
+Theorem C02_view_def_changed :
+  forall a b,
+  body_def_changed a b = false <->
+  a = b \/ trim_view_extra a = trim_view_extra b \/
+  noident (trim_view_extra a) = noident (trim_view_extra b).
+Proof. exact body_def_changed_spec. Qed.
+
+(** 13. PostgreSQL enum objects (Schema.Objects; postgres SchemaObjectDiff; DiffObjects.v): exact
+    on every script of enums keyed by the type name -- one DropObject per dropped enum, one
+    ModifyObject (carrying both value lists) per kept enum whose value lists differ in any way
+    (length, order, spelling), one AddObject per added enum; the same enums listed in any other
+    order give nothing. *)
+Theorem C02_exact_objects :
+  forall from to ps adds,
+  from = map fst ps -> script_ok e_T ps adds -> Permutation to (kept ps ++ adds) ->
+  exists adds', Permutation adds adds' /\
+    pg_schema_object_diff from to = obj_expected ps ++ map (fun e => AddObject (e_T e)) adds'.
+Proof. exact pg_schema_object_diff_exact. Qed.
+
+Theorem C02_objects_self_empty :
+  (forall l, NoDup (map e_T l) -> pg_schema_object_diff l l = []) /\
+  (forall e1 e2, e_T e2 = e_T e1 ->
+     pg_schema_object_diff [e1] [e2] =
+     if negb (strs_eqb (e_values e1) (e_values e2)) then [ModifyObject (e_T e1) (e_values e1) (e_values e2)] else []) /\
+  (forall a b, strs_eqb a b = true <-> a = b).
+Proof. exact (conj pg_schema_object_diff_self (conj enum_modify_iff strs_eqb_eq)). Qed.
+
 (** * Non-vacuity: concrete inputs (vm_compute) *)
 Definition x_a : column := mkColumn [97]%N 2 [105;110;116]%N false None None None.
 Definition x_b : column := mkColumn [98]%N 3 [116;101;120;116]%N true (Some (DLit [39;120;39]%N)) None None.
@@ -736,6 +1107,153 @@ Proof. split; vm_compute; reflexivity. Qed.
 Example C02_ex_no_check : mysql_table_attr_diff_v x_v57 x_t x_t = None.
 Proof. vm_compute. reflexivity. Qed.
 
+(* round 5 *)
+Example C02_ex_numfk_shift :
+  SchemaDiff sqlite_driver no_skip n_from n_to_perm = Some [] /\
+  SchemaDiff sqlite_driver no_skip n_from n_to_add = Some [ModifyTable [116]%N [AddForeignKey [48]%N]] /\
+  SchemaDiff sqlite_driver no_skip n_from n_to_last = Some [ModifyTable [116]%N [DropForeignKey [50]%N]].
+Proof. exact (conj n_diff_perm (conj n_diff_add n_diff_last)). Qed.
+Example C02_ex_numfk_unpaired :
+  normalize_fk_inner [116]%N [116]%N (n_fk 49 121 98) [n_fk 48 120 97; n_fk 49 122 99] [true; false]
+  = (n_fk 49 121 98, [true; false]).
+Proof. vm_compute. reflexivity. Qed.
+Definition x_utf8 : str := [117;116;102;56;109;98;52]%N.
+Definition x_latin1 : str := [108;97;116;105;110;49]%N.
+Definition x_sx (n : N) (cs : option str) (ts : list table) : schema_x := mkSchemaX (mkSchema [n] ts) cs None None.
+Definition x_r1 : realm := mkRealm (Some x_utf8) None [x_sx 97 (Some x_latin1) [x_t]; x_sx 98 None []].
+(* schema a: charset attribute removed (-> the realm's utf8mb4), table t dropped; schema b dropped; schema c (one table) added *)
+Definition x_r2 : realm := mkRealm None None [x_sx 99 None [x_t]; x_sx 97 None []].
+Example C02_ex_realm :
+  mysql_realm_diff_v x_v80 (fun _ => false) x_r1 x_r2 =
+  Some [ModifySchema [97]%N [SModifyAttr ATTR_CHARSET x_latin1 x_utf8]; InSchema [97]%N (DropTable [116]%N);
+        DropSchema [98]%N; AddSchema [99]%N; InSchema [99]%N (AddTable [116]%N)] /\
+  mysql_realm_diff_v x_v80 (fun t => match t with RtAddSchema | RtTag TgDropTable => true | _ => false end) x_r1 x_r2 =
+  Some [ModifySchema [97]%N [SModifyAttr ATTR_CHARSET x_latin1 x_utf8];
+        DropSchema [98]%N; InSchema [99]%N (AddTable [116]%N)].
+Proof. split; vm_compute; reflexivity. Qed.
+Example C02_ex_realm_script :
+  script_ok sx_name [(x_sx 97 (Some x_latin1) [x_t], Some (x_sx 97 None [])); (x_sx 98 None [], None)] [x_sx 99 None [x_t]] /\
+  Permutation (r_schemas x_r2)
+    (kept [(x_sx 97 (Some x_latin1) [x_t], Some (x_sx 97 None [])); (x_sx 98 None [], None)] ++ [x_sx 99 None [x_t]]).
+Proof.
+  split.
+  - unfold script_ok. simpl. split.
+    + repeat constructor; simpl; intuition discriminate.
+    + intros c c' [E|[E|[]]]; inversion E; reflexivity.
+  - simpl. apply perm_swap.
+Qed.
+Example C02_ex_realm_self :
+  wf_realm sqlite_dwf (mkRealm None None [mkSchemaX x_s None None None]) /\
+  sqlite_realm_diff (fun _ => false) (mkRealm None None [mkSchemaX x_s None None None])
+                                     (mkRealm None None [mkSchemaX x_s None None None]) = Some [].
+Proof.
+  split; [|vm_compute; reflexivity].
+  split; [repeat constructor; simpl; tauto|]. intros s [<-|[]]. exact C02_ex_wf.
+Qed.
+Example C02_ex_pg_comment :
+  pg_schema_attr_diff [] x_r1 (mkSchemaX (mkSchema PUBLIC []) None None (Some STD_PUBLIC_COMMENT))
+                              (mkSchemaX (mkSchema PUBLIC []) None None (Some [120]%N)) = [SAddAttr ATTR_COMMENT [120]%N] /\
+  pg_schema_attr_diff [] x_r1 (mkSchemaX (mkSchema [97]%N []) None None (Some [39;120;39]%N))
+                              (mkSchemaX (mkSchema [97]%N []) None None (Some [120]%N)) = [] /\
+  pg_schema_attr_diff [] x_r1 (mkSchemaX (mkSchema [97]%N []) None None (Some [120]%N))
+                              (mkSchemaX (mkSchema [97]%N []) None None None) = [SModifyAttr ATTR_COMMENT [120]%N []].
+Proof. repeat split; vm_compute; reflexivity. Qed.
+
+(* round 5: the table script of the pair (x_t, x_t') of C02_ex_exact meets [ts_ok]; its expected list is the diff *)
+Definition x_sc : table_script :=
+  mkTS [(x_a, Some x_a); (x_b, Some x_b')] [x_c] [(x_f1, Some x_f1')] [] [(x_k1, None)] [].
+Example C02_ex_exact_sqlite :
+  Forall2 entry_ok [(x_t, Some x_t')] [x_sc] /\
+  sqlite_schema_expected no_skip [(x_t, Some x_t')] [x_sc] =
+  [ModifyTable [116]%N [AddAttr ATTR_STRICT; DropCheck [107;49]%N [97;62;48]%N;
+                        ModifyColumn [98]%N (N.lor ChangeNull ChangeDefault); AddColumn [99]%N;
+                        ModifyIndex [105;49]%N ChangeUnique; ModifyForeignKey [102;49]%N ChangeDeleteAction]].
+Proof.
+  split; [|vm_compute; reflexivity].
+  constructor; [|constructor]. intros t' E. simpl in E. inversion E; subst t'. clear E.
+  destruct C02_ex_column_script as [CS CP].
+  split; [|split; [|split; [|split]]].
+  - intros fk1 fk2 [<-|[]] [<-|[]] _. reflexivity.
+  - intros i [<-|[]]. left. vm_compute. reflexivity.
+  - split; [reflexivity|]. split; [exact CS|]. split; [exact CP|].
+    intros c c' [E|[E|[]]]; inversion E; split; discriminate.
+  - split; [reflexivity|]. split.
+    + split; simpl; [repeat constructor; simpl; tauto|]. intros c c' [E|[]]. inversion E. reflexivity.
+    + simpl. apply Permutation_refl.
+  - split; [reflexivity|]. split; [simpl; constructor|]. split; [intros c o _ c2 []|].
+    split; [intros c c2 [E|[]]; inversion E|]. split; [intros c2 []|intros a []].
+Qed.
+
+(* round 5: table attributes.  Current: ENGINE MyISAM, AUTO_INCREMENT 5, comment 'c', charset latin1 in a utf8mb4 schema;
+   desired: no engine, AUTO_INCREMENT 100, no comment, no charset, column c added *)
+Definition x_myisam : str := [77;121;73;83;65;77]%N.
+Definition x_tx1 : table_x := mkTableX x_t (Some [99]%N) (Some x_latin1) None (Some (x_myisam, false)) (Some 5%N) false None.
+Definition x_tx2 : table_x := mkTableX (mkTable [116]%N false false [x_a; x_b; x_c] None [x_i1] [x_f1] [x_k1])
+                                       None None None None (Some 100%N) false None.
+Example C02_ex_table_attrs :
+  mysql_schema_diff_tx x_v80 no_skip (mkSchemaTX [109]%N (Some x_utf8) None [x_tx1]) (mkSchemaTX [109]%N (Some x_utf8) None [x_tx2]) =
+  Some [ModifyTable [116]%N [ModifyAttr ATTR_AUTOINC; ModifyAttr ATTR_COMMENT; ModifyAttr ATTR_CHARSET; ModifyAttr ATTR_ENGINE;
+                            AddColumn [99]%N]] /\
+  mysql_schema_diff_tx x_v80 (fun t => match t with TgAddColumn => true | _ => false end)
+    (mkSchemaTX [109]%N (Some x_utf8) None [x_tx1]) (mkSchemaTX [109]%N (Some x_utf8) None [x_tx2]) =
+  Some [ModifyTable [116]%N [ModifyAttr ATTR_AUTOINC; ModifyAttr ATTR_COMMENT; ModifyAttr ATTR_CHARSET; ModifyAttr ATTR_ENGINE]] /\
+  mysql_schema_diff_tx x_v80 no_skip (mkSchemaTX [109]%N (Some x_utf8) None [x_tx1]) (mkSchemaTX [109]%N (Some x_utf8) None [x_tx1]) = Some [].
+Proof. repeat split; vm_compute; reflexivity. Qed.
+Example C02_ex_partition :
+  pg_table_attrs_x None None (mkTableX x_t None None None None None false (Some [82]%N))
+                             (mkTableX x_t None None None None None false (Some [72]%N)) = None /\
+  pg_table_attrs_x None None (mkTableX x_t None None None None None false (Some [82]%N))
+                             (mkTableX x_t (Some [99]%N) None None None None false (Some [82]%N)) = Some [AddAttr ATTR_COMMENT].
+Proof. split; vm_compute; reflexivity. Qed.
+Example C02_ex_engine_autoinc :
+  mysql_engine_change None (Some ([73;110;110;111;68;66]%N, false)) = [ModifyAttr ATTR_ENGINE] /\
+  mysql_engine_change (Some ([73;110;110;111;68;66]%N, false)) (Some (INNODB_LOWER, false)) = [] /\
+  mysql_autoinc_change (Some 1000%N) (Some 2%N) = [] /\ mysql_autoinc_change None (Some 2%N) = [ModifyAttr ATTR_AUTOINC].
+Proof. repeat split; vm_compute; reflexivity. Qed.
+
+(* round 5: flagged checks.  c1 (n>0) loses ENFORCED, the unnamed (a>0) too, k9 NOT ENFORCED is added *)
+Definition x_kx (n e : str) (f : bool) : check_x := mkCheckX n e f.
+Example C02_ex_check_flags :
+  mysql_table_diff_xk x_v80 no_skip None None
+    (mkTableXK (mkTableX (mkTable [116]%N false false [x_a; x_b] None [] [] []) None None None None None false None)
+               [x_kx [107;49]%N [97;62;48]%N true; x_kx [] [97;62;49]%N true])
+    (mkTableXK (mkTableX (mkTable [116]%N false false [x_a; x_b] None [] [] []) None None None None None false None)
+               [x_kx [107;57]%N [97;62;57]%N false; x_kx [] [97;62;49]%N false; x_kx [107;49]%N [97;62;48]%N false]) =
+  Some [ModifyCheck [107;49]%N [97;62;48]%N [107;49]%N [97;62;48]%N; DropCheck [] [97;62;49]%N;
+        AddCheck [107;57]%N [97;62;57]%N; AddCheck [] [97;62;49]%N] /\
+  mysql_checks_x x_v57 (mkTableXK (mkTableX x_t None None None None None false None) [])
+                       (mkTableXK (mkTableX x_t None None None None None false None) [x_kx [107;49]%N [97;62;48]%N true]) = None.
+Proof. split; vm_compute; reflexivity. Qed.
+
+(* round 5: views.  "SELECT a\n  FROM t;" vs "SELECT a FROM t" is no difference; vs "SELECT  a FROM t" it is *)
+Definition x_def1 : str := [83;69;76;69;67;84;32;97;10;32;32;70;82;79;77;32;116;59]%N.
+Definition x_def2 : str := [83;69;76;69;67;84;32;97;32;70;82;79;77;32;116]%N.
+Definition x_def3 : str := [83;69;76;69;67;84;32;32;97;32;70;82;79;77;32;116]%N.
+Definition x_view (d : str) (m : bool) (c : option str) : view := mkView [118]%N d m [([97]%N, c)] [x_i1].
+Example C02_ex_views :
+  body_def_changed x_def1 x_def2 = false /\ body_def_changed x_def2 x_def3 = true /\
+  views_diff sqlite_driver (fun _ => false) [x_view x_def1 false None] [x_view x_def2 false None] = [] /\
+  views_diff sqlite_driver (fun _ => false) [x_view x_def1 false None] [x_view x_def3 false (Some [99]%N)] =
+    [ModifyView [118]%N false [ModifyColumn [97]%N ChangeComment]] /\
+  views_diff sqlite_driver (fun _ => false) [x_view x_def1 false None] [x_view x_def3 false None] = [ModifyView [118]%N false []] /\
+  views_diff sqlite_driver (fun _ => false) [x_view x_def1 false None] [x_view x_def1 true None] =
+    [DropView [118]%N false; AddView [118]%N true] /\
+  views_diff sqlite_driver (fun t => match t with VtTag TgModifyColumn => true | _ => false end)
+    [x_view x_def1 false None] [x_view x_def1 false (Some [99]%N)] = [].
+Proof. repeat split; vm_compute; reflexivity. Qed.
+
+(* round 5: enum objects: status(a,b) gets a value, kind is dropped, fresh is added; AddObject skipped *)
+Example C02_ex_objects :
+  pg_schema_diff_o [] (fun _ => false)
+    (mkSchemaO x_s [mkEnumO [115]%N [[97]%N; [98]%N]; mkEnumO [107]%N [[120]%N]])
+    (mkSchemaO x_s [mkEnumO [102]%N [[112]%N]; mkEnumO [115]%N [[97]%N; [98]%N; [99]%N]]) =
+  Some [SO (ModifyObject [115]%N [[97]%N; [98]%N] [[97]%N; [98]%N; [99]%N]); SO (DropObject [107]%N); SO (AddObject [102]%N)] /\
+  pg_schema_diff_o [] (fun t => match t with OtAddObject => true | _ => false end)
+    (mkSchemaO x_s [mkEnumO [115]%N [[97]%N; [98]%N]])
+    (mkSchemaO x_s [mkEnumO [102]%N [[112]%N]; mkEnumO [115]%N [[98]%N; [97]%N]]) =
+  Some [SO (ModifyObject [115]%N [[97]%N; [98]%N] [[98]%N; [97]%N])].
+Proof. split; vm_compute; reflexivity. Qed.
+
 Print Assumptions C02_self_empty.
 Print Assumptions C02_copy_empty.
 Print Assumptions C02_perm_empty.
@@ -783,3 +1301,32 @@ Print Assumptions C02_mysql_int_default_except.
 Print Assumptions C02_mysql_uint_default_refuted.
 Print Assumptions C02_mysql_float_default_except.
 Print Assumptions C02_mysql_decimal_default_refuted.
+Print Assumptions C02_sqlite_numeric_fk_symbols.
+Print Assumptions C02_sqlite_numeric_fk_drop_refuted.
+Print Assumptions C02_exact_realm.
+Print Assumptions C02_exact_schema_attrs.
+Print Assumptions C02_realm_add_schema.
+Print Assumptions C02_perm_empty_realm.
+Print Assumptions C02_self_empty_realm.
+Print Assumptions C02_realm_laws.
+Print Assumptions C02_realm_perm_empty_dialects.
+Print Assumptions C02_mysql_schema_attr_exact.
+Print Assumptions C02_comment_diff_exact.
+Print Assumptions C02_exact_sqlite_partial.
+Print Assumptions C02_exact_table_attrs.
+Print Assumptions C02_exact_schema_tx.
+Print Assumptions C02_mysql_table_attrs.
+Print Assumptions C02_mysql_autoinc_exact.
+Print Assumptions C02_mysql_engine_exact.
+Print Assumptions C02_postgres_partition_error.
+Print Assumptions C02_table_attr_laws.
+Print Assumptions C02_self_empty_tx.
+Print Assumptions C02_self_empty_tx_dialects.
+Print Assumptions C02_exact_checks_flags.
+Print Assumptions C02_check_flag_alone.
+Print Assumptions C02_exact_table_checks.
+Print Assumptions C02_exact_views.
+Print Assumptions C02_views_self_empty.
+Print Assumptions C02_view_def_changed.
+Print Assumptions C02_exact_objects.
+Print Assumptions C02_objects_self_empty.
